@@ -1,6 +1,7 @@
 package lint
 
 import (
+	"encoding/json"
 	"fmt"
 	"os"
 	"sort"
@@ -30,6 +31,19 @@ func Main(o Options) int {
 		for _, k := range sortedKeys(rep) {
 			fmt.Printf("%-22s %s\n", k, rep[k])
 		}
+		return 0
+	case "props":
+		type pj struct {
+			ID, Title, Explanation, NotDecided string
+			Rules, Dropped                     []string
+		}
+		var out []pj
+		for _, id := range sortedKeys(propTable) {
+			pd := propTable[id]
+			out = append(out, pj{id, pd.Title, pd.Explanation, pd.NotDecided, pd.Rules, pd.Dropped})
+		}
+		b, _ := json.MarshalIndent(out, "", " ")
+		fmt.Println(string(b))
 		return 0
 	case "sites":
 		m.DumpSites()
